@@ -66,6 +66,7 @@ struct Session {
   std::vector<long> pct_points;
   long low_prio = -1;
   int last_kind = 0;
+  bool enum_spur_done = false;
 };
 
 static Session S;
@@ -81,7 +82,7 @@ const char *ev_name(int k) {
   return (k > 0 && k < EV_KIND_MAX) ? n[k] : "?";
 }
 const char *strategy_name(int s) {
-  static const char *n[] = {"rr", "uniform", "sticky", "pct", "starve", "hookbias"};
+  static const char *n[] = {"rr", "uniform", "sticky", "pct", "starve", "hookbias", "enum"};
   return (s >= 0 && s < ST_MAX) ? n[s] : "?";
 }
 
@@ -230,6 +231,15 @@ static ThreadRec *choose(bool cur_runnable) {
         }
       }
     }
+  } else if (S.cfg.strategy == ST_ENUM) {
+    if (S.cfg.enum_spur_k >= 0 && S.res.decision_points >= S.cfg.enum_spur_k && !S.enum_spur_done && !cvw.empty()) {
+      ThreadRec *t = cvw[(size_t)S.cfg.enum_spur_c % cvw.size()];
+      S.enum_spur_done = true;
+      S.spurious_left = 1;
+      wake_spurious(t);
+      S.res.decisions.push_back(-(t->id) - 2);
+      cand.push_back(t);
+    }
   } else {
     if (S.spurious_left > 0 && !cvw.empty() && S.rng.chance(S.cfg.p_spurious)) {
       ThreadRec *t = cvw[S.rng.below(cvw.size())];
@@ -258,6 +268,7 @@ static ThreadRec *choose(bool cur_runnable) {
 
   bool cur_in = cur_runnable && cur->st == T_RUNNABLE;
   ThreadRec *pick = nullptr;
+  long dix = S.res.decision_points++;
   if (S.cfg.use_replay) {
     int v = -1;
     if (S.replay_pos < S.cfg.replay.size()) v = S.cfg.replay[S.replay_pos++];
@@ -295,6 +306,23 @@ static ThreadRec *choose(bool cur_runnable) {
       for (long p : S.pct_points) if (p == S.res.steps && cur_in) cur->prio = S.low_prio--;
       pick = cand[0];
       for (ThreadRec *t : cand) if (t->prio > pick->prio) pick = t;
+      break;
+    }
+    case ST_ENUM: {
+      // canonical choice, except at the enumerated decision indices, where another runnable thread is forced
+      ThreadRec *def = nullptr;
+      if (cur_in) def = cur;
+      else {
+        def = cand[0];
+        for (ThreadRec *t : cand) if (t->id > cur->id) { def = t; break; }
+      }
+      pick = def;
+      for (int q = 0; q < 2; q++)
+        if (S.cfg.enum_k[q] == dix) {
+          std::vector<ThreadRec *> others;
+          for (ThreadRec *t : cand) if (t != def) others.push_back(t);
+          if (!others.empty()) pick = others[(size_t)S.cfg.enum_c[q] % others.size()];
+        }
       break;
     }
     case ST_STARVE: {
@@ -529,6 +557,7 @@ void session_begin(const SchedConfig &cfg) {
   next_mtx_id = 0; next_cv_id = 0;
   S.buf_base = S.ctrl_base = nullptr; S.nbuf = 0; S.bm.clear(); S.io_tid = -1;
   S.last_kind = 0;
+  S.enum_spur_done = false;
   S.low_prio = -1;
   S.pct_points.clear();
   if (cfg.strategy == ST_PCT)
